@@ -69,9 +69,22 @@ def region_coverage(rep: Report, f: FuncInfo) -> int:
         regs = by_branch.setdefault(branch, {})
         count += 1
 
-        def compares(n: int, kinds: Set[str], need_other: bool) -> bool:
+        def evaluated_parts(e: ast.AST, env_) -> List[ast.AST]:
+            """Operands of a short-circuit test that are evaluated at all under the valuation (`k not in self and not close(t)` does not
+            evaluate the comparison for a key that is in self)."""
+            if env_ is None or not isinstance(e, ast.BoolOp):
+                return [e]
+            out = []
+            for v in e.values:
+                out += evaluated_parts(v, env_)
+                val = env_.eval(v)
+                if (isinstance(e.op, ast.And) and val is False) or (isinstance(e.op, ast.Or) and val is True):
+                    break
+            return out
+
+        def compares(n: int, kinds: Set[str], need_other: bool, env_=None) -> bool:
             nd = cfg.nodes[n]
-            es = [nd.expr] if nd.kind in ('test',) else [nd.stmt] if nd.kind in ('stmt', 'return') else []
+            es = evaluated_parts(nd.expr, env_) if nd.kind in ('test',) else [nd.stmt] if nd.kind in ('stmt', 'return') else []
             def has(e: ast.AST) -> bool:
                 for x in ast.walk(e):
                     if isinstance(x, ast.Call) and isinstance(x.func, ast.Attribute) and x.func.attr in kinds and norm(x.func.value).split('.')[0].split('(')[0] == t:
@@ -91,7 +104,7 @@ def region_coverage(rep: Report, f: FuncInfo) -> int:
                 # keys in both are handled by the loop over self; this loop must skip them or compare them again -- but never
                 # compare such a block with zero
                 r_both = walk(cfg, be, env, loop_header_stop=hdr, unknown='both')
-                wrong = [n2 for n2 in r_both if n2 in cfg.loop_body[hdr] and compares(n2, CMP_DEFAULT, False) and not compares(n2, CMP_BOTH, True)]
+                wrong = [n2 for n2 in r_both if n2 in cfg.loop_body[hdr] and compares(n2, CMP_DEFAULT, False, env) and not compares(n2, CMP_BOTH, True, env)]
                 rep.ob('C13-D1 key-region', f.fq(), f"[{branch}] key both (loop over {owner}): block `{t}` is not compared with zero", f.loc(lp), not wrong,
                        'a block that the other operand has too is skipped (or compared with it)' if not wrong else
                        f"a block present in both operands is compared with its default ({cfg.describe(wrong[0])}): a non-zero block makes the test fail although the operands agree")
